@@ -113,15 +113,15 @@ Fixpoint next_seq (fuel : nat) (c : ctxk) (s : qstate) : list (qstate * nres) :=
       match fuel with
       | O => []
       | S f =>
-          let b_ctx := if ctx_fires c then [(s, NCtx)] else [] in
-          let b_tok := if q_token s then next_seq f c (take_token s) else [] in
-          let b_cl := if q_closed s
-                      then (if Nat.eqb (q_len s) 0 then [(s, NClosed)] else next_seq f c s)
-                      else [] in
-          match b_ctx ++ b_tok ++ b_cl with
-          | [] => [(s, NHang)]         (* nothing ready, ctx never done: blocks *)
-          | l => l
-          end
+          if negb (ctx_fires c || q_token s || q_closed s)
+          then [(s, NHang)]            (* nothing ready and ctx never done: blocks *)
+          else
+            let b_ctx := if ctx_fires c then [(s, NCtx)] else [] in
+            let b_tok := if q_token s then next_seq f c (take_token s) else [] in
+            let b_cl := if q_closed s
+                        then (if Nat.eqb (q_len s) 0 then [(s, NClosed)] else next_seq f c s)
+                        else [] in
+            b_ctx ++ b_tok ++ b_cl
       end
   end.
 
